@@ -13,6 +13,9 @@ Parts
                 previous attempt (for implicit methods, whose retries also follow unconverged Newton solves: never larger than
                 the step first requested) and the same sign; the accepted dT is
                 that of the last attempt
+             4. a second run whose target lies a sliver (1e-10 .. 8e-6 of a step) past, or just before, a natural step end
+                of the first run: the states recorded there obey oracle 1 too (a step that "almost" reaches the target
+                is not the target)
   scaling    metamorphic: for a linear problem and an explicit adaptive method (or a Richardson wrapper of an explicit
              base), scaling (y0, atol) by 2^k leaves the recorded time grid bit-identical and scales the states exactly:
              the error test must be homogeneous in (y, atol) - no absolute floor, no swapped tolerances.
@@ -78,6 +81,10 @@ def _accuracy(draw):
     lo = math.log10(_min_tol(method))
     tol = 10.0 ** draw(st.floats(lo, -3.0).map(lambda x: round(x, 1)))
     dtfrac = draw(st.sampled_from([1e-4, 1e-3, 0.01, 0.1, 0.5, 1.0, 4.0]))
+    # oracle 4: a second run whose target lies a sliver (snap x step) beyond / before a natural step end of the first run
+    snap = draw(st.sampled_from([None, None, 8e-6, 1e-6, 1e-8, 1e-10, -1e-7]))
+    if snap is not None and draw(st.booleans()):
+        tol = max(_min_tol(method), 10.0 ** draw(st.sampled_from([-9, -10, -11])))
     # tolerances that differ from each other, on states far from magnitude one (linear problems scale freely)
     atol = tol
     if kind == "lin":
@@ -89,7 +96,7 @@ def _accuracy(draw):
             atol = tol * draw(st.sampled_from([1.0, 1e3]))             # atol >> rtol with |y| >> 1
             tol = tol
     return dict(part="accuracy", method=method, dtype="float64", prob=prob, y0=y0, t0=t0, tf=tf, dt=L * dtfrac * draw(st.sampled_from([1.0, -1.0])),
-                rtol=tol, atol=atol, dense=False)
+                rtol=tol, atol=atol, dense=False, snap=snap)
 
 
 @st.composite
@@ -273,6 +280,29 @@ def _check_accuracy(case):
             labels.append("tol/100_run")
         elif isinstance(err2, traj.StepCap):
             labels.append("tol/100_capped")
+    # ---- oracle 4: the target a sliver away from a natural step end (the states recorded there obey oracle 1 as well)
+    if case.get("snap") is not None and N >= 3 and not viols:
+        tt = np.asarray(a.t, dtype=np.float64)
+        k = N // 2
+        tf3 = float(tt[k + 1] + case["snap"] * (tt[k + 1] - tt[k]))
+        if tf3 != case["t0"] and (tf3 - case["t0"]) * T > 0:
+            c3 = dict(case, tf=tf3)
+            a3, f3, y03, _, err3 = _run_accuracy(c3, record=False)
+            labels.append("snap_run")
+            if err3 is None:
+                N3 = len(a3) - 1
+                werr3, ymax3 = _errors(a3, f3, c3, y03)
+                unit3 = c3["atol"] + c3["rtol"] * ymax3
+                bound3 = KACC * unit3 * amp * math.sqrt(max(N3, 1))
+                metrics["err/bound"] = max(metrics["err/bound"], werr3 / bound3)
+                t3 = np.asarray(a3.t, dtype=np.float64)
+                if not werr3 <= bound3 + 1e-13 * (1 + ymax3) * max(N3, 1):
+                    viols.append(V("accuracy", "{}: with the target {:.1e} of a step beyond the natural step end {!r} (tf = {!r}, tol {:.1e}) max error {:.3e} = {:.1f} x (atol + rtol max|y|), {} steps (allowed {:.1f} x; the run to {!r} had {:.1f} x)".format(
+                        method, case["snap"], float(tt[k + 1]), tf3, case["rtol"], werr3, werr3 / unit3, N3, bound3 / unit3, case["tf"], werr / unit), fam, hlam=hlam, snap=True, **attrs))
+                elif abs(t3[-1] - tf3) > 4 * np.finfo(np.float64).eps * max(abs(tf3), abs(case["t0"])):
+                    viols.append(V("target_missed", "{}: target {!r} (a sliver past a natural step end) but the grid ends at {!r}".format(method, tf3, float(t3[-1])), fam, snap=True, **attrs))
+            elif not isinstance(err3, traj.StepCap) and not (implicit and isinstance(err3.__cause__, de.exception_types.FailedToMeetTolerances)):
+                viols.append(V("integrate_raised", "{}: target a sliver ({:.1e} of a step) past a natural step end: raised {!r} caused by {!r}".format(method, case["snap"], err3, err3.__cause__), fam + exc_sig(err3), hlam=None, snap=True, **attrs))
     backward = case["tf"] < case["t0"]
     nontrivial = bool(rejected or backward or abs(case["dt"]) > abs(T))
     return viols, dict(nontrivial=nontrivial, labels=labels, metrics=metrics, counts=dict(recorded_steps=N, rejected_attempts=rejected))
